@@ -73,6 +73,7 @@ type Op struct {
 
 type Case struct {
 	Store        int   `json:"store"` // 0 writeback, 1 tag replication
+	Remotes      int   `json:"remotes,omitempty"` // tag replication: 0 validator accepting everything, 1 one pattern per remote, 2 several patterns per remote (the tags match a later one)
 	InBuf        int   `json:"in_buf"`
 	RetryBuf     int   `json:"retry_buf"`
 	InWorkers    int   `json:"in_workers"`
@@ -92,6 +93,7 @@ const livenessBound = 10 * time.Second
 func gen(t *rapid.T) Case {
 	c := Case{
 		Store:        rapid.IntRange(0, 1).Draw(t, "store"),
+		Remotes:      rapid.IntRange(0, 2).Draw(t, "remotes"),
 		InBuf:        rapid.IntRange(0, 2).Draw(t, "in_buf"),
 		RetryBuf:     rapid.IntRange(0, 2).Draw(t, "retry_buf"),
 		InWorkers:    rapid.IntRange(1, 2).Draw(t, "in_workers"),
@@ -408,7 +410,21 @@ func (h *harness) open() error {
 	if w.c.Store == 0 {
 		inner = writeback.NewStore(db)
 	} else {
-		s, err := tagreplication.NewStore(db, allValid{})
+		// Every task of the grid is valid under each of these configurations (its destination
+		// is among the remotes whose patterns match its tag), so the purge of tasks for removed
+		// remotes that NewStore performs at start-up must not delete anything.
+		var validator tagreplication.RemoteValidator = allValid{}
+		switch w.c.Remotes {
+		case 1:
+			validator, err = tagreplication.RemotesConfig{"ns0": []string{".*"}, "ns1": []string{".*"}}.Build()
+		case 2:
+			validator, err = tagreplication.RemotesConfig{"ns0": []string{"other/.*", "name.*"}, "ns1": []string{"^x$", "nam.[0-9]", ".*"}}.Build()
+		}
+		if err != nil {
+			db.Close()
+			return fmt.Errorf("remotes config: %v", err)
+		}
+		s, err := tagreplication.NewStore(db, validator)
 		if err != nil {
 			db.Close()
 			return fmt.Errorf("tagreplication.NewStore: %v", err)
@@ -780,6 +796,7 @@ func runOnce(c Case) (out outcome) {
 	add(w.addErrors > 0, "add-error")
 	add(c.Store == 0, "store-writeback")
 	add(c.Store == 1, "store-tagreplication")
+	add(c.Store == 1 && c.Remotes == 2, "remotes-with-several-patterns")
 	add(w.removes == 0, "no-task-completed")
 	out.nontriv = w.retrySuccess > 0 && (overflow > 0 || restartsWithStored > 0)
 	return
